@@ -57,8 +57,9 @@ class ToyLearner:
 
 
 class ToyEval:
-    def __init__(self, tag, seed=None, fail_at=None, learn=True, params_fail=False):
+    def __init__(self, tag, seed=None, fail_at=None, learn=True, params_fail=False, skip_mult=None):
         self.tag, self.seed, self.fail_at, self.learn, self.params_fail = tag, seed, fail_at, learn, params_fail
+        self.skip_mult = skip_mult      # learners with this `mult` legitimately get no rows at all (and are not touched)
 
     @property
     def params(self):
@@ -70,6 +71,8 @@ class ToyEval:
         seed = self.seed if self.seed is not None else CobaContext.store.get("experiment_seed")
         if self.fail_at == 0:
             raise ToyFail("TOYFAIL:val%d:evaluate" % self.tag)
+        if self.skip_mult is not None and learner.mult == self.skip_mult:
+            return
         k = 0
         for interaction in environment.read():
             x = interaction["context"]
@@ -85,6 +88,89 @@ class ToyEval:
 
 # ---- components for the built-in (config-invariance only) cases
 
+def _rows_only(context, actions):
+    """these learners are not batch aware: coba has to fall back to row-by-row calls for batched environments"""
+    from coba.primitives import is_batch
+    if is_batch(context) or is_batch(actions):
+        raise TypeError("not batch aware")
+
+
+class InfoLearner:
+    """stateful; reports diagnostics through the process-global CobaContext.learning_info from score / predict /
+    learn; may raise in learn after predict has already written its info (so the info is never flushed to a row)"""
+
+    def __init__(self, tag, where=("score", "predict", "learn"), fail_learn_at=None):
+        self.tag, self.where, self.fail_learn_at = tag, tuple(where), fail_learn_at
+        self.ns = self.np = self.nl = 0
+
+    @property
+    def params(self):
+        return {"family": "InfoLearner", "tag": self.tag, "where": "+".join(self.where)}
+
+    def score(self, context, actions, action):
+        _rows_only(context, actions)
+        self.ns += 1
+        if "score" in self.where:
+            CobaContext.learning_info["n_score%d" % self.tag] = self.ns
+        return 1 / len(actions)
+
+    def predict(self, context, actions):
+        _rows_only(context, actions)
+        self.np += 1
+        if "predict" in self.where:
+            CobaContext.learning_info["n_pred%d" % self.tag] = self.np
+        return actions[self.nl % len(actions)], 1 / len(actions)
+
+    def learn(self, context, action, reward, probability):
+        _rows_only(context, None)
+        if self.fail_learn_at is not None and self.nl == self.fail_learn_at:
+            raise ToyFail("TOYFAIL:lrn%d:learn" % self.tag)
+        self.nl += 1
+        if "learn" in self.where:
+            CobaContext.learning_info["n_learn%d" % self.tag] = self.nl
+
+
+class PolicyLearner:
+    """a fixed policy whose score is `p` (p = 0: rejection sampling legitimately accepts nothing -> zero rows)"""
+
+    def __init__(self, tag, p):
+        self.tag, self.p = tag, p
+
+    @property
+    def params(self):
+        return {"family": "PolicyLearner", "tag": self.tag, "p": self.p}
+
+    def score(self, context, actions, action):
+        _rows_only(context, actions)
+        return self.p
+
+    def predict(self, context, actions):
+        _rows_only(context, actions)
+        return actions[0], self.p
+
+    def learn(self, context, action, reward, probability):
+        pass
+
+
+class RowLearner:
+    """stateful and not batch aware (float(context[0]) raises for a batch of contexts)"""
+
+    def __init__(self, tag):
+        self.tag, self.n, self.s = tag, 0, 0.0
+
+    @property
+    def params(self):
+        return {"family": "RowLearner", "tag": self.tag}
+
+    def predict(self, context, actions):
+        i = (int(abs(float(context[0])) * 10) + self.n) % len(actions)
+        return {"action_prob": (actions[i], 1.0)}
+
+    def learn(self, context, action, reward, probability):
+        self.s += float(context[0])
+        self.n += 1
+
+
 class PmfLearner:
     """stateful, returns a PMF (played through SafeLearner's seeded rng)"""
 
@@ -97,6 +183,7 @@ class PmfLearner:
         return {"family": "PmfLearner", "tag": self.tag}
 
     def predict(self, context, actions):
+        _rows_only(context, actions)
         w = [1 + self.counts.get(i, 0) for i in range(len(actions))]
         t = sum(w)
         return [x / t for x in w]
@@ -121,6 +208,7 @@ class KwargsLearner:
         return {"family": "KwargsLearner", "tag": self.tag}
 
     def predict(self, context, actions):
+        _rows_only(context, actions)
         i = (self.t * (self.tag + 1)) % len(actions)
         return actions[i], 1.0, {"info": self.t}
 
